@@ -21,8 +21,10 @@ spurious count.
 | … (edit: make_mut / clone / inline promotion along any visited set) | `rc_invariant_edit` (from `editRef_ok`) |
 | no shared node is written without exclusive ownership | `writes_exclusive`: the in-place branch of `make_mut` is taken only for a cell whose single reference is the one being edited — no other handle, no cell links to it; `make_mut_result`: otherwise a fresh cell with count 1 and the same children/payload is written instead and the original keeps all its other owners |
 | every shared node is freed exactly once / never reused | `freed_never_reused_edit`, `freed_never_reused_release`: a freed id stays freed under every operation (ids are never recycled, so a second free of the same cell cannot be confused with a new one) |
-| deleting other copies never alters it; freed exactly once after the last handle goes away | OPEN `rc_invariant_delete` (the cascade of `ts_subtree_release` with its explicit stack): judged on every real heap (`judgeRc` after each delete, allocator balance = 0), not yet proved |
-| editing a copy never alters what another handle observes | OPEN `edit_isolated` (needs reachability + `writes_exclusive` along the edit path): judged on every real heap (`judgeIsolated`) |
+| deleting other copies never alters it | `delete_isolated` (the whole cascade of `ts_subtree_release`), `rc_invariant_delete` |
+| editing a copy never alters what another handle observes | `edit_isolated` (every edit, any visited set), `copy_isolated` |
+| every shared node is freed exactly once after the last handle goes away | `rc_invariant_delete` + `no_dangling_no_garbage`: after every history (`rc_invariant`) every cell without owner has been freed and no freed cell is referenced; freed ids are never reused. OPEN `heap_empty_after_last_delete` (needs an acyclicity rank: with no handle left, live cells could only be referenced from a cycle) — judged by the allocator balance |
+| using any copy as the old tree of a re-parse never alters it | OPEN `reparse_isolated` (re-parse is abstract in the model) — judged on every real re-parse (`judgeIsolated`) |
 | concurrent use = sequential use | OPEN `interleaving_eq_sequential` (small-step refinement); tied syntactically to SEQ_CST atomics, judged by threaded-vs-sequential runs |
 -/
 namespace TsVerif.C08
@@ -165,5 +167,137 @@ theorem freed_never_reused_edit (spec : EditSpec D) (h : Heap D) (r : Ref D) (X 
 makes a freed id live again and never shrinks the id space. -/
 theorem freed_never_reused_release (h : Heap D) (r : Ref D) (j : Nat) (hj : j < h.length)
     (hd : cellAt h j = none) : cellAt (release h r) j = none := (deadMono_release h r).2 j hj hd
+
+
+/-! ## delete, whole histories, isolation -/
+
+theorem root_handles {s : State D} {h : Nat} {r : Ref D} (hr : s.root h = some r) : s.handles[h]? = some (some r) := by
+  unfold State.root at hr
+  split at hr
+  · rename_i r' heq; cases hr; exact heq
+  · cases hr
+
+theorem root_set_other (s : State D) (h h' : Nat) (o : Option (Ref D)) (hne : h' ≠ h) (heap : Heap D) :
+    State.root { heap := heap, handles := s.handles.set h o } h' = s.root h' := by
+  unfold State.root
+  simp only
+  rw [List.getElem?_set_ne (Ne.symm hne)]
+
+theorem mem_rootsOf_set_other {l : List (Option (Ref D))} {h h' : Nat} {r' : Ref D} (o : Option (Ref D))
+    (hne : h' ≠ h) (hr : l[h']? = some (some r')) : r' ∈ rootsOf (l.set h o) := by
+  unfold rootsOf
+  rw [List.mem_filterMap]
+  refine ⟨some r', ?_, rfl⟩
+  apply List.mem_of_getElem? (i := h')
+  rw [List.getElem?_set_ne (Ne.symm hne)]
+  exact hr
+
+/-- The owners of a state, seen from handle `h`: its root first, then everybody else. -/
+theorem swf_split {s : State D} {h : Nat} {r : Ref D} (hw : SWF s) (hr : s.root h = some r) :
+    WF s.heap (r :: rootsOf (s.handles.set h none)) :=
+  wf_perm hw (fun a => by
+    have := cnt_rootsOf_set a s.handles h r none (root_handles hr)
+    simp only [rootsOf_cons_none, rootsOf_nil, cnt_nil] at this
+    rw [cnt_cons a r]; omega)
+
+/-- `rc_invariant_delete`: `ts_tree_delete` — one decrement and the whole cascade of
+`ts_subtree_release` with its explicit stack — keeps the invariant: afterwards every remaining
+cell's count is exactly its number of owners, every cell without owners has been freed, and no
+freed cell is still referenced. -/
+theorem rc_invariant_delete (s : State D) (h : Nat) (hw : SWF s) : SWF (s.delete h) := by
+  unfold State.delete
+  cases hr : s.root h with
+  | none => exact hw
+  | some r => exact release_wf r (swf_split hw hr)
+
+/-- API operations on tree handles. -/
+inductive Op (D : Type) where
+  | copy (h : Nat)
+  | edit (h : Nat) (spec : EditSpec D)
+  | delete (h : Nat)
+
+def State.apply (s : State D) : Op D → State D
+  | .copy h => s.copy h
+  | .edit h spec => s.edit h spec
+  | .delete h => s.delete h
+
+/-- `rc_invariant`: the invariant holds after every history of copies, edits and deletes. -/
+theorem rc_invariant (ops : List (Op D)) : ∀ (s : State D), SWF s → SWF (ops.foldl State.apply s) := by
+  induction ops with
+  | nil => intro s hw; exact hw
+  | cons op ops ih =>
+    intro s hw
+    simp only [List.foldl_cons]
+    apply ih
+    cases op with
+    | copy h => exact rc_invariant_copy s h hw
+    | edit h spec => exact rc_invariant_edit s h spec hw
+    | delete h => exact rc_invariant_delete s h hw
+
+/-- Consequences of the invariant in any reachable state: no dangling root or child link, and no
+live cell without an owner (nothing leaked, nothing freed too early). -/
+theorem no_dangling_no_garbage {s : State D} (hw : SWF s) :
+    (∀ i, Ref.ptr i ∈ s.refs → ∃ c, cellAt s.heap i = some c) ∧
+    (∀ i c, cellAt s.heap i = some c → 0 < cnt i s.refs) := by
+  refine ⟨fun i hi => ?_, fun i c hc => ?_⟩
+  · apply hw.live
+    have := cnt_pos_of_mem hi
+    simp only [State.refs, cnt_append] at this
+    exact this
+  · have h1 := hw.pos i c hc
+    have h2 := hw.count i
+    have h3 : rcOf s.heap i = c.rc := by unfold rcOf; rw [hc]
+    simp only [State.refs, cnt_append]
+    omega
+
+/-- `edit_isolated`: an edit applied to handle `h` changes neither the root stored in another
+handle `h'` nor anything observable through it — for every edit (any visited set), although
+structure is shared. -/
+theorem edit_isolated (s : State D) (h h' : Nat) (spec : EditSpec D) (hw : SWF s) (hne : h' ≠ h)
+    (r' : Ref D) (hr' : s.root h' = some r') :
+    (s.edit h spec).root h' = some r' ∧
+    ∀ (f : Nat) (t : OTree D), unfold f s.heap r' = some t → unfold f (s.edit h spec).heap r' = some t := by
+  unfold State.edit
+  cases hr : s.root h with
+  | none => exact ⟨hr', fun _ _ hu => hu⟩
+  | some r =>
+    simp only
+    refine ⟨by rw [root_set_other s h h' _ hne]; exact hr', ?_⟩
+    intro f t hu
+    exact editRef_frame spec s.heap r _ (swf_split hw hr) r'
+      (mem_rootsOf_set_other none hne (root_handles hr')) f t hu
+
+/-- `delete_isolated`: deleting handle `h` (with every free it triggers) changes nothing that is
+observable through another handle `h'`. -/
+theorem delete_isolated (s : State D) (h h' : Nat) (hw : SWF s) (hne : h' ≠ h)
+    (r' : Ref D) (hr' : s.root h' = some r') :
+    (s.delete h).root h' = some r' ∧
+    ∀ (f : Nat) (t : OTree D), unfold f s.heap r' = some t → unfold f (s.delete h).heap r' = some t := by
+  unfold State.delete
+  cases hr : s.root h with
+  | none => exact ⟨hr', fun _ _ hu => hu⟩
+  | some r =>
+    simp only
+    refine ⟨by rw [root_set_other s h h' _ hne]; exact hr', ?_⟩
+    intro f t hu
+    exact release_frame r (swf_split hw hr) r' (mem_rootsOf_set_other none hne (root_handles hr')) f t hu
+
+/-- `copy_isolated`: copying changes counts only. -/
+theorem copy_isolated (s : State D) (h : Nat) (r' : Ref D) (f : Nat) (t : OTree D)
+    (hu : unfold f s.heap r' = some t) : unfold f (s.copy h).heap r' = some t := by
+  unfold State.copy
+  cases hr : s.root h with
+  | none => exact hu
+  | some r => exact unfold_ext (ext_retain s.heap r) f r' t hu
+
+/-- Non-vacuity of the isolation theorems: two handles share a cell; editing one of them in a way
+that rewrites the shared cell leaves the other one's observation intact (and really clones). -/
+example :
+    let s : State Nat := { heap := [some { rc := 2, kids := [.inl 5], data := 1 }], handles := [some (.ptr 0), some (.ptr 0)] }
+    let s' := s.edit 0 (.visit 9 false [.visit 6 false []])
+    s'.root 0 = some (.ptr 1) ∧ s'.root 1 = some (.ptr 0) ∧
+    cellAt s'.heap 0 = some { rc := 1, kids := [.inl 5], data := 1 } ∧
+    cellAt s'.heap 1 = some { rc := 1, kids := [.inl 6], data := 9 } := by
+  decide
 
 end TsVerif.C08
